@@ -50,8 +50,10 @@ def cases(tier, seed):
         mem = corecfg.synth_mem(r, fam)
         mem["bankbits"] = r.choice([1, 2])
         cs = corecfg.rand_cs(r, refresh=True)
-        cs["cmd_buffer_depth"] = r.choice([2, 4, 8])
+        cs["cmd_buffer_depth"] = r.choice([2, 4, 8, 1, 3])
         cs["refresh_postponing"] = r.choice([1, 2])
+        if r.random() < 0.25:
+            mem["nranks"] = 2        # twice the bank machines; the direction logic has to see requests of every rank
         cls = CLASSES[k % len(CLASSES)]
         nports = r.choice([2, 2, 3, 4]) if cls != "many-ports-one-bank" else r.choice([3, 4, 5])
         if cls.startswith("dir-stream-plus-rowmiss"):
@@ -61,7 +63,7 @@ def cases(tier, seed):
               "wr_frac": r.choice([0.0, 0.5, 1.0]) if cls in LOCKOUT_CLASSES else 0.5, "we_style": "full"}
         cfg = dict(mem=mem, cs=cs, nports=nports, workload=wl, seed="C05/%d/%d" % (seed, k), trefi_override=r.randint(100, 140),
                    max_cycles=0, sweep=False)
-        cfg["name"] = "%03d-%s-%s-p%d-d%d" % (k, fam, cls, nports, cs["cmd_buffer_depth"])
+        cfg["name"] = "%03d-%s-%s-p%d-d%d%s" % (k, fam, cls, nports, cs["cmd_buffer_depth"], "-2r" if mem.get("nranks") == 2 else "")
         cfg["cost"] = corecfg.cost_of(mem, nports, 4000)
         out.append(cfg)
     return out
